@@ -3,24 +3,23 @@
 #  (1) patch applies and builds, (2) existing suite passes with it, (3) demo fails with it, (4) demo passes without it.
 set -u
 export GOFLAGS=-mod=mod GOPROXY=off GOSUMDB=off GOTOOLCHAIN=local
-M=$1
+M=$(readlink -f $1)
 WT=$(mktemp -d /tmp/seedwt-XXXX); rmdir $WT
 git -C /repo worktree add -q --detach $WT HEAD || exit 2
 trap "git -C /repo worktree remove --force $WT" EXIT
 cd $WT
-demo_cmd=$(python3 -c "import json;print(json.load(open('$M/meta.json'))['demo_cmd'])")
-# where does the demo go? take the copy destination from the demo_cmd if it has a cp, else root
-dest=$(grep -m1 -o -E "(place|copy|placed|copied)[^\n]*" $M/demo_test.go | head -1)
-pkgdir="."
-if grep -q "package integration" $M/demo_test.go; then pkgdir="integration"; fi
-if grep -q "^package segment" $M/demo_test.go; then pkgdir="segment"; fi
-cp $M/demo_test.go $pkgdir/zz_seeded_demo_test.go
-run=$(grep -o -E "\-run '?[A-Za-z0-9_|]+'?" <<< "$demo_cmd" | head -1 | sed "s/-run //; s/'//g")
-[ -z "$run" ] && run=$(grep -o -E "func (Test[A-Za-z0-9_]+)" $M/demo_test.go | head -1 | sed 's/func //')
-echo "demo: pkg=$pkgdir run=$run"
-echo -n "demo without patch: "; go test -vet=off -count=1 -run "$run" ./$pkgdir 2>&1 | tail -1
+rundemo() {
+  if [ -f $M/demo.sh ]; then bash $M/demo.sh $WT 2>&1 | tail -1; return; fi
+  demo_cmd=$(python3 -c "import json;print(json.load(open('$M/meta.json'))['demo_cmd'])")
+  gocmd=$(grep -o -E "go test .*" <<< "$demo_cmd" | head -1 | sed 's/&&.*//')
+  pkgdir=$(awk '{print $NF}' <<< "$gocmd" | sed "s/'//g" | sed 's#^\./##; s#/$##'); [ -z "$pkgdir" ] && pkgdir="."
+  [ -d "$pkgdir" ] || pkgdir="."
+  cp $M/demo_test.go $pkgdir/zz_seeded_demo_test.go
+  timeout 600 bash -c "$gocmd" 2>&1 | tail -1
+  rm -f $pkgdir/zz_seeded_demo_test.go
+}
+echo -n "demo without patch: "; rundemo
 git apply $M/patch.diff 2>/dev/null || git apply --3way $M/patch.diff 2>/dev/null || { echo "PATCH DOES NOT APPLY"; exit 3; }
 go build ./... || { echo "BUILD FAILS"; exit 3; }
-echo -n "demo with patch: "; go test -vet=off -count=1 -run "$run" ./$pkgdir 2>&1 | tail -1
-rm $pkgdir/zz_seeded_demo_test.go
+echo -n "demo with patch: "; rundemo
 echo "suite with patch:"; go test -vet=off -count=1 ./... 2>&1 | grep -v "no test files" | grep -v "^ok" ; echo "(suite done)"
